@@ -56,6 +56,9 @@ func (C12) Gen(r *simrt.RNG, tier string) core.Case {
 		if w.Args[ai].Kind == world.ArgConv && r.Chance(2, 3) {
 			w.Args[ai].Kind = world.ArgConvFunc
 		}
+		if w.Args[ai].Kind == world.ArgConvFunc && r.Chance(1, 4) {
+			w.Args[ai].NilPad = true // ConverterFunc(nil, f, nil): nil entries are documented as ignored
+		}
 	}
 	base := w.Ops[0].Args
 	var ty int
